@@ -155,8 +155,12 @@ func workC15(req *Request, set []byte) {
 				if ref.To == nil {
 					continue
 				}
+				exported := ref.To.ToJ5Root()
+				for _, c := range descgen.ExportCoverage(exported) {
+					o.Viol = append(o.Viol, fmt.Sprintf("export-coverage: %s | %s.%s", c, pkg.Name, name))
+				}
 				a, err1 := descgen.InternalRootTerm(ref.To)
-				b, err2 := descgen.RootTermAsReflected(ref.To.ToJ5Root())
+				b, err2 := descgen.RootTermAsReflected(exported)
 				if err1 != nil || err2 != nil {
 					o.Viol = append(o.Viol, fmt.Sprintf("dump: %s.%s: %v %v", pkg.Name, name, err1, err2))
 					continue
